@@ -3,6 +3,15 @@ from ._intrinsic import _intrinsic
 from ._primitive_type import _PrimitiveType
 
 
+@_intrinsic
+def _int_truncdiv(lhs: int, rhs: int) -> int:
+    # Integer division that rounds towards zero (the '/' operator of VHDL).
+    # Does not use float division because that is
+    # not exact for large operands.
+    quotient = abs(lhs) // abs(rhs)
+    return quotient if (lhs < 0) == (rhs < 0) else -quotient
+
+
 class Integer(_PrimitiveType):
     @staticmethod
     def decay(value: int | Integer) -> int:
@@ -186,7 +195,7 @@ class Integer(_PrimitiveType):
 
             if rhs == 0:
                 return Integer()
-            return Integer(int(lhs / rhs))
+            return Integer(_int_truncdiv(lhs, rhs))
         else:
             return NotImplemented
 
@@ -213,7 +222,7 @@ class Integer(_PrimitiveType):
             if rhs == 0:
                 return Integer()
 
-            return Integer(lhs - rhs * int(lhs / rhs))
+            return Integer(lhs - rhs * _int_truncdiv(lhs, rhs))
         else:
             return NotImplemented
 
